@@ -259,6 +259,26 @@ var _ = reserr.ErrAccessDenied
 //@       (r.Method == "PUT" || r.Method == "DELETE" || r.Method == "PATCH") && arg1 == reserr.ErrMethodNotAllowed)
 //@   safety[C15]
 
+// --- collector helpers (C02) ---
+
+// Unsend: the subscription is no longer counted as sent to the client; every sent resource it
+// references loses exactly one "sent by a parent" count.
+//@ func (*Subscription).Unsend
+//@   requires s != nil
+//@   assumes forall a string :: has(s.refs, a) ==> s.refs[a] != nil && s.refs[a].sub != nil
+//@   assumes forall a, b string :: has(s.refs, a) && has(s.refs, b) && a != b ==> s.refs[a].sub != s.refs[b].sub
+//@   ensures[C02] s.state == stateReady && s.indirectsent == 0
+//@   ensures[C02] forall a string :: has(s.refs, a) && s.refs[a].sub != s && old(s.refs[a].sub.state) == stateSent && old(s.refs[a].sub.indirectsent) > 0 ==>
+//@       s.refs[a].sub.indirectsent == old(s.refs[a].sub.indirectsent) - 1
+//@   ensures[C02] forall x *Subscription :: x != s ==> x.state == old(x.state)
+//@   safety[C15]
+//@   loop 1 invariant s.state == stateReady && s.indirectsent == 0 && s.refs == old(s.refs)
+//@   loop 1 invariant forall x *Subscription :: x != s ==> x.state == old(x.state)
+//@   loop 1 invariant forall a string :: has(s.refs, a) ==> s.refs[a] != nil && s.refs[a].sub != nil && s.refs[a] == old(s.refs[a]) && s.refs[a].sub == old(s.refs[a].sub)
+//@   loop 1 invariant forall a string :: has(s.refs, a) == old(has(s.refs, a))
+//@   loop 1 invariant forall a string :: has(s.refs, a) && s.refs[a].sub != s ==> s.refs[a].sub.indirectsent ==
+//@       ite(visited1[a] && old(s.refs[a].sub.state) == stateSent && old(s.refs[a].sub.indirectsent) > 0, old(s.refs[a].sub.indirectsent) - 1, old(s.refs[a].sub.indirectsent))
+
 // --- late answers and disposal (C11) ---
 
 //@ func (*Subscription).setResource
